@@ -14,7 +14,7 @@ ID = "C04"
 BUDGET = {"quick": 2600, "thorough": 70000}
 REQUIRED = ["judged:shared-edge-sequences", "judged:anti-aligned-shared-edge", "judged:preserve-start/end",
             "judged:preserve-through-flipped-block", "judged:multi-section", "judged:simpleGrading-four-wires-equal",
-            "judged:file-vs-hooked-state", "kind:edgeGrading", "kind:simpleGrading"]
+            "judged:file-vs-hooked-state", "kind:edgeGrading", "kind:simpleGrading", "judged:sandwich-family"]
 MIN_KEYS = 40
 RULE = (
     "jittered lattice assemblies (all edge lengths distinct), 24 orientations per block, exactly one chopped block per "
@@ -83,7 +83,26 @@ def gen_case(ctx):
     fid, fam, _ = lattice.families(case)
     scale = 0.6
     for r in sorted(fam, key=lambda x: fam[x][0]):
-        b, a = rng.choice(fam[r])
+        members = fam[r]
+        if len(members) >= 3 and rng.random() < 0.35:
+            # "sandwich": two chopped blocks of one family that share no edge (equal counts, different expansions), so
+            # that an un-chopped block between them copies its wires from both and needs edgeGrading
+            pairs = []
+            for x in members:
+                for y in members:
+                    if x < y and not (set(lattice.block_axis_pairs(case["blocks"][x[0]])[x[1]]) &
+                                       set(lattice.block_axis_pairs(case["blocks"][y[0]])[y[1]])):
+                        pairs.append((x, y))
+            if pairs:
+                (b1, a1), (b2, a2) = rng.choice(pairs)
+                n = rng.randint(2, 9)
+                case["blocks"][b1]["chops"].append([a1, {"count": n, "c2c_expansion": rng.choice([1.0, 1.0, 1.15]), "preserve": "c2c_expansion"}])
+                case["blocks"][b2]["chops"].append([a2, rng.choice([
+                    {"count": n, "start_size": rng.uniform(0.03, 0.12) * scale, "preserve": "start_size"},
+                    {"count": n, "end_size": rng.uniform(0.03, 0.12) * scale, "preserve": "end_size"},
+                    {"count": n, "c2c_expansion": rng.choice([0.8, 1.25]), "preserve": "c2c_expansion"}])])
+                continue
+        b, a = rng.choice(members)
         for kw in gen_chops(rng, scale):
             case["blocks"][b]["chops"].append([a, kw])
     return case
@@ -181,6 +200,12 @@ def run_case(ctx, case):
     flipped_chain = False
     for r, members in fam.items():
         chopped = [(b, a) for b, a in members if any(ax == a for ax, _ in blocks[b]["chops"])]
+        if len(chopped) == 2:
+            # sandwich family: which chop an un-chopped block's free wires follow is the library's choice; the shared-edge,
+            # file-vs-state and simpleGrading clauses above are the ones judged here
+            ctx.count("judged:sandwich-family")
+            feats.add(("sandwich", "", 1))
+            continue
         assert len(chopped) == 1
         b0, a0 = chopped[0]
         kws = [kw for ax, kw in blocks[b0]["chops"] if ax == a0]
